@@ -8,35 +8,98 @@ theorem lastView_eq {cfg : Cfg} {d : Disk} {mf : LogFile MRec} (hc : curManifest
     lastView cfg d = viewAt cfg mf mf.unsynced.length := by
   simp [lastView, hc]
 
-/-- in the running phase a job is a flush job and needs a frozen buffer -/
-theorem Inv.nojob_of_nofrozen {cfg : Cfg} {s : St} {d : Disk} (h : Inv cfg s d) (hph : s.phase = .running)
-    (hf : s.frozen = none) : s.job = none := by
+/-- in the running phase a job without a frozen buffer is a table compaction -/
+theorem Inv.job_of_nofrozen {cfg : Cfg} {s : St} {d : Disk} (h : Inv cfg s d) (hph : s.phase = .running)
+    (hf : s.frozen = none) (htr : s.tr = none) : Holds' s.job fun j => j.kind = .compaction := by
   cases hj : s.job with
-  | none => rfl
+  | none => trivial
   | some j =>
     have := h.job
     rw [hj] at this
     have hk := this.kind
     unfold JobKindOK at hk
+    show j.kind = .compaction
     split at hk
     · obtain ⟨_, hk⟩ := hk
       rw [hf] at hk
       simp at hk
     · rw [hph] at hk; exact absurd hk.1 (by decide)
     · rw [hph] at hk; exact absurd hk.1 (by decide)
-    · exact absurd hk id
+    · assumption
+    · rw [htr] at hk; exact absurd hk.2.2.2.2 id
+
+/-- the snapshot record does not depend on the next-file counter once its `nf` is fixed -/
+theorem snapshotRec_nf (cfg : Cfg) (s s' : St) (e : MRec) (x : Nat) (h1 : s'.manifestOpen = s.manifestOpen)
+    (h2 : s'.stJn = s.stJn) (h3 : s'.stSq = s.stSq) (h4 : s'.live = s.live) :
+    ({ snapshotRec cfg s' e with nf := x } : MRec) = { snapshotRec cfg s e with nf := x } := by
+  simp only [snapshotRec, h1, h2, h3, h4]
+
+/-- a table compaction is not disturbed by `newMem` on the write path: a new (highest) journal, the next
+    file number moves on -/
+theorem JobOK.rotate {cfg : Cfg} {s : St} {d : Disk} {j : Job} (h : JobOK cfg s d j) (hk : j.kind = .compaction)
+    (hjlt : s.jcur < s.nextFile) (hnd : d.journals.Pairwise (fun p q => p.1 ≠ q.1)) :
+    JobOK cfg { s with nextFile := s.nextFile + 1, frozen := some s.mem, mem := [], jfrozen := some s.jcur,
+                       jcur := s.nextFile, frozenSeq := s.seq }
+      { d with journals := d.journals.set s.nextFile ⟨[], []⟩ } j := by
+  obtain ⟨h1, h2, h3, h4, h5, h6, h7, h8, h9, h10, h11, h12⟩ := h
+  have hmk : j.mkJournal = none := by
+    unfold JobKindOK at h2; rw [hk] at h2; exact h2.2.1
+  refine ⟨h1, ?_, ?_, ⟨fun o ho => Nat.lt_succ_of_lt (h4.1 o ho), h4.2⟩, h5, h6, h7, ?_, ?_, h10, h11, h12⟩
+  · unfold JobKindOK at h2 ⊢; rw [hk] at h2 ⊢; exact h2
+  · unfold JobManifestOK at h3 ⊢
+    cases he : j.edit with
+    | none => rw [he] at h3; exact h3
+    | some e =>
+      rw [he] at h3
+      simp only at h3 ⊢
+      cases hpc : j.pc <;> rw [hpc] at h3 <;> simp only [JobManifest] at h3 ⊢
+      all_goals first
+        | exact h3
+        | skip
+      · -- rotWrite
+        obtain ⟨a, b, c, e'⟩ := h3
+        exact ⟨a, b, Nat.lt_succ_of_lt c, e'⟩
+      · -- rotSync
+        obtain ⟨a, b, c, e'⟩ := h3
+        refine ⟨a, b, Nat.lt_succ_of_lt c, e'.imp (fun mf hmf => hmf.imp (fun r hr => ?_))⟩
+        exact ⟨hr.1.trans (by simp [snapshotRec]), hr.2.1, Nat.le_succ_of_le hr.2.2.1, hr.2.2.2⟩
+      · -- rotSetMeta
+        obtain ⟨a, b, c, e'⟩ := h3
+        refine ⟨a, b, Nat.lt_succ_of_lt c, e'.imp (fun mf hmf => hmf.imp (fun r hr => ?_))⟩
+        exact ⟨hr.1.trans (by simp [snapshotRec]), hr.2.1, Nat.le_succ_of_le hr.2.2.1, hr.2.2.2⟩
+      · -- sync
+        obtain ⟨a, b⟩ := h3
+        refine ⟨a, b.imp (fun mf hmf => ⟨hmf.1.imp (fun r hr => ⟨hr.1, Nat.le_succ_of_le hr.2⟩), hmf.2⟩)⟩
+  · unfold MkJournalOK; rw [hmk]; trivial
+  · refine h9.imp (fun v hv => ?_)
+    unfold RemovalsOK at hv ⊢
+    split
+    · rename_i rest heq
+      rw [heq] at hv
+      simp only at hv
+      refine ⟨fun n hn => ⟨?_, (hv.1 n hn).2⟩, hv.2⟩
+      rcases (hv.1 n hn).1 with hx | ⟨hx, hy⟩
+      · exact Or.inl hx
+      · refine Or.inr ⟨Nat.lt_trans hx hjlt, fun p hp hpn => ?_⟩
+        rcases (mem_set hnd).1 hp with rfl | ⟨hp0, _⟩
+        · simp only at hpn; omega
+        · exact hy p hp0 hpn
+    · rename_i rest heq; rw [heq] at hv; exact hv
+    · rename_i rest heq; rw [heq] at hv; exact hv
+    · trivial
 
 theorem inv_rotate {cfg : Cfg} {s : St} {d : Disk} (h : Inv cfg s d) {s' : St} {d' : Disk}
     (hs : stepWriter cfg s d (.rotate .ok) = some (s', d')) : Inv cfg s' d' := by
   simp only [stepWriter, Disk.exec, Disk.apply] at hs
   split at hs
   · rename_i hg
-    obtain ⟨hph, hq, hfz, _⟩ := hg
+    obtain ⟨hph, hq, hfz, htr⟩ := hg
     simp only [Outcome.failed, Bool.false_eq_true, if_false, Option.some.injEq, Prod.mk.injEq] at hs
     obtain ⟨rfl, rfl⟩ := hs
     have hrun := h.run hph
     have hb := h.bounds (by rw [hph]; decide)
-    have hjob := h.nojob_of_nofrozen hph hfz
+    have hjob := h.job_of_nofrozen hph hfz htr
+    have hntw := h.not_trWindow_of_tr_none htr
     have hinfl : inflight s.w = [] := by
       cases hw : s.w <;> rw [hw] at hq <;> simp_all [WPc.quiet, inflight]
     have hmem : ∀ x ∈ s.mem, x.fin ≤ s.seq + 1 := by
@@ -58,10 +121,11 @@ theorem inv_rotate {cfg : Cfg} {s : St} {d : Disk} (h : Inv cfg s d) {s' : St} {
       exact DiskOK.journal_create h.disk s.nextFile hrun.nums.1
     · exact h.mm.of_same rfl rfl
     · intro _
-      exact hb.of_same rfl (Nat.le_refl _) (Nat.le_succ _) (fun _ => ⟨hph, Nat.le_of_lt hjlt⟩)
+      exact hb.of_same rfl (seqHi_le_of_not_window hntw hntw (Nat.le_refl _)) (Nat.le_succ _)
+        (fun _ => ⟨hph, Nat.le_of_lt hjlt⟩)
     · intro _
       obtain ⟨r1, r2, r3, r4, r5, r6, r7, r8, r9⟩ := hrun
-      refine ⟨r1, ?_, ?_, ?_, ?_, ?_, ?_, ?_, ?_⟩
+      refine ⟨⟨r1.1, by unfold TrOK; show Holds' s.tr _; rw [htr]; trivial⟩, ?_, ?_, ?_, ?_, ?_, ?_, ?_, ?_⟩
       · exact r2
       · show Holds (lookup (d.journals.set s.nextFile ⟨[], []⟩) s.nextFile) _
         rw [lookup_set, if_pos rfl]
@@ -99,6 +163,7 @@ theorem inv_rotate {cfg : Cfg} {s : St} {d : Disk} (h : Inv cfg s d) {s' : St} {
             rw [← hv]; exact lastView_eq hparts.cur
           rw [hlv]
           have hbv := hb.all mf hparts.cur _ (Nat.le_refl _) v hv
+          rw [seqHi_eq hntw] at hbv
           exact ⟨hbv.2.2 hph, hbv.1⟩
       · refine r8.imp (fun mf hmf => hmf.imp (fun v0 hv0 p hp hjn => ?_))
         rcases (mem_set hnd).1 hp with rfl | ⟨hp0, _⟩
@@ -111,7 +176,15 @@ theorem inv_rotate {cfg : Cfg} {s : St} {d : Disk} (h : Inv cfg s d) {s' : St} {
     · intro hc; rw [hph] at hc; cases hc
     · intro hc; rw [hph] at hc; cases hc
     · show Holds' s.job _
-      rw [hjob]; trivial
+      cases hj : s.job with
+      | none => trivial
+      | some j =>
+        rw [hj] at hjob
+        have hok := h.job
+        rw [hj] at hok
+        have := JobOK.rotate hok hjob hjlt hnd
+        rw [hj] at this
+        exact this
   · cases hs
 
 
@@ -151,7 +224,9 @@ theorem inv_flushStart {cfg : Cfg} {s : St} {d : Disk} (h : Inv cfg s d) {s' : S
         constructor
         · exact h.disk
         · exact h.mm
-        · intro _; exact hb.of_same rfl (Nat.le_refl _) (Nat.le_refl _) (fun _ => ⟨hph, Nat.le_refl _⟩)
+        · intro _
+          exact hb.of_same rfl (seqHi_le_of_not_window (not_trWindow_of_nojob hjob)
+            (not_trWindow_of_kind rfl (fun hk => by cases hk)) (Nat.le_refl _)) (Nat.le_refl _) (fun _ => ⟨hph, Nat.le_refl _⟩)
         · intro _
           obtain ⟨r1, r2, r3, r4, r5, r6, r7, r8, r9⟩ := hrun
           refine ⟨r1, ⟨?_, r2.2⟩, r3, r4, r5, r6, ?_, r8, fun hc => by cases hc⟩
@@ -159,13 +234,14 @@ theorem inv_flushStart {cfg : Cfg} {s : St} {d : Disk} (h : Inv cfg s d) {s' : S
           · apply frozenOK_iff.2
             refine Or.inr ⟨fz, jf, hfz, hjf, f1, f2, f3, f4, f5, ?_⟩
             intro hn
-            exact absurd hn (by unfold NoCommitYet; simp [Holds', JPc.beforeCommit])
+            exact absurd hn (by unfold FlushPending; simp [Holds', JPc.beforeCommit])
         · intro hc; rw [hph] at hc; cases hc
         · intro hc; rw [hph] at hc; cases hc
         · show JobOK cfg _ d _
           refine ⟨⟨Nat.zero_le _, Or.inl rfl⟩, ?_, ?_,
             ⟨fun o ho => absurd ho List.not_mem_nil, fun hc => absurd hc (by simp [JPc.beforeCommit])⟩, trivial,
-            fun i o hi => absurd hi (by simp), trivial, trivial, ?_, fun _ => rfl⟩
+            fun i o hi => absurd hi (by simp), trivial, trivial, ?_, fun _ => rfl, trivial,
+            (fun _ => by rw [hlv]; exact fun o ho => absurd ho List.not_mem_nil)⟩
           · show JobKindOK _ _
             simp [JobKindOK, hph, hfz, hjf, hfz0]
           · show JobManifestOK cfg _ d _
@@ -174,7 +250,7 @@ theorem inv_flushStart {cfg : Cfg} {s : St} {d : Disk} (h : Inv cfg s d) {s' : S
           · rw [hlv]
             simp only [Holds]
             unfold RemovalsOK
-            refine ⟨fun n hn => ?_, fun t ht => by cases ht⟩
+            refine ⟨fun n hn => ?_, fun t ht => (by cases ht), fun hk => (by rcases hk with hk | hk <;> cases hk)⟩
             simp only [List.mem_singleton] at hn
             subst hn
             exact ⟨Or.inr ⟨f1, fun p hp hpn => by rw [f5 p hp hpn, hfz0]⟩, fun x hx => by cases hx⟩
@@ -186,18 +262,21 @@ theorem inv_flushStart {cfg : Cfg} {s : St} {d : Disk} (h : Inv cfg s d) {s' : S
         constructor
         · exact h.disk
         · exact h.mm
-        · intro _; exact hb.of_same rfl (Nat.le_refl _) (Nat.le_succ _) (fun _ => ⟨hph, Nat.le_refl _⟩)
+        · intro _
+          exact hb.of_same rfl (seqHi_le_of_not_window (not_trWindow_of_nojob hjob)
+            (not_trWindow_of_kind rfl (fun hk => by cases hk)) (Nat.le_refl _)) (Nat.le_succ _) (fun _ => ⟨hph, Nat.le_refl _⟩)
         · intro _
           obtain ⟨r1, r2, r3, r4, r5, r6, r7, r8, r9⟩ := hrun
           refine ⟨r1, ⟨?_, r2.2⟩, r3, r4, ⟨fun p hp => Nat.lt_succ_of_lt (r5.1 p hp),
             r5.2.imp (fun m hm => Nat.lt_succ_of_lt hm)⟩, r6, ?_, r8, fun hc => by cases hc⟩
           · show MfdOK _ d; unfold MfdOK; exact hmfd
           · apply frozenOK_iff.2
-            exact Or.inr ⟨fz, jf, hfz, hjf, f1, f2, f3, f4, f5, fun _ => f6 hnc⟩
+            exact Or.inr ⟨fz, jf, hfz, hjf, f1, f2, f3, f4, f5, fun _ => f6 hnc.flushPending⟩
         · intro hc; rw [hph] at hc; cases hc
         · intro hc; rw [hph] at hc; cases hc
         · show JobOK cfg _ d _
-          refine ⟨⟨Nat.le_refl _, Or.inl rfl⟩, ?_, ?_, ⟨?_, ?_⟩, ?_, ?_, ?_, trivial, ?_, fun hc => by cases hc⟩
+          refine ⟨⟨Nat.le_refl _, Or.inl rfl⟩, ?_, ?_, ⟨?_, ?_⟩, ?_, ?_, ?_, trivial, ?_, (fun hc => by cases hc),
+            (by simp [Holds', InputsOK]), (fun hc => by cases hc)⟩
           · show JobKindOK _ _
             simp [JobKindOK, hph, hfz, hjf, hfzne]
           · show JobManifestOK cfg _ d _
@@ -219,7 +298,7 @@ theorem inv_flushStart {cfg : Cfg} {s : St} {d : Disk} (h : Inv cfg s d) {s' : S
             simp only [List.mem_singleton] at ho
             subst ho
             exact (hb.all mf' hcur k hk v hv).2.1
-          · exact ⟨rfl, rfl, rfl, rfl, rfl, rfl⟩
+          · exact ⟨rfl, rfl, rfl⟩
           · intro i o hi
             show OutOK d (.tCreate 0) i o
             unfold OutOK
@@ -229,6 +308,101 @@ theorem inv_flushStart {cfg : Cfg} {s : St} {d : Disk} (h : Inv cfg s d) {s' : S
             exact Nat.lt_succ_self _
           · rw [hlv]; trivial
     · cases hs
+  · cases hs
+
+/-- spawning a table compaction: the inputs are live tables, the output table is their content -/
+theorem inv_compactStart {cfg : Cfg} {s : St} {d : Disk} (h : Inv cfg s d) {inputs : List Nat} {s' : St}
+    (hs : compactStart s d inputs = some s') : Inv cfg s' d := by
+  unfold compactStart at hs
+  split at hs
+  · rename_i hg
+    obtain ⟨hph, hjob, hne, hnd, hall⟩ := hg
+    simp only [Option.some.injEq] at hs
+    subst hs
+    have hrun := h.run hph
+    have hb := h.bounds (by rw [hph]; decide)
+    have hsett := hrun.nojob hjob
+    obtain ⟨mf, vl, hcur, hlv, hvl⟩ := h.lastView_some
+    have hmfd : s.manifestFd = d.current := by
+      have := hrun.mfd.1
+      unfold MfdOK at this
+      rw [hjob] at this
+      exact this
+    have hfp : FlushPending s := by unfold FlushPending; rw [hjob]; trivial
+    have hlive : ∀ t ∈ inputs, t ∈ s.live := by
+      intro t ht
+      have := List.all_eq_true.1 hall t ht
+      simpa using this
+    -- live tables lie below the next file number
+    have hmir : Mirror s vl := by
+      unfold Settled at hsett
+      have := (holds_some hsett hcur).2
+      rw [hlv] at this
+      exact this
+    have hvok := h.disk.allViews mf hcur _ (Nat.le_refl _) vl hvl
+    have hbv := hb.all mf hcur _ (Nat.le_refl _) vl hvl
+    have hlt : ∀ t ∈ inputs, t < s.nextFile := by
+      intro t ht
+      have := (hvok.tables t (by rw [hmir.1]; exact hlive t ht)).1
+      exact Nat.lt_of_lt_of_le this hbv.2.1
+    constructor
+    · exact h.disk
+    · exact h.mm
+    · intro _
+      exact hb.of_same rfl (seqHi_le_of_not_window (not_trWindow_of_nojob hjob)
+        (not_trWindow_of_kind rfl (fun hk => by cases hk)) (Nat.le_refl _)) (Nat.le_succ _) (fun _ => ⟨hph, Nat.le_refl _⟩)
+    · intro _
+      obtain ⟨r1, r2, r3, r4, r5, r6, r7, r8, r9⟩ := hrun
+      refine ⟨r1, ⟨?_, r2.2⟩, r3, r4, ⟨fun p hp => Nat.lt_succ_of_lt (r5.1 p hp),
+        r5.2.imp (fun m hm => Nat.lt_succ_of_lt hm)⟩, r6, ?_, r8, fun hc => by cases hc⟩
+      · show MfdOK _ d; unfold MfdOK; exact hmfd
+      · rcases frozenOK_iff.1 r7 with ⟨h1, h2⟩ | ⟨fz, jf, h1, h2, f1, f2, f3, f4, f5, f6⟩
+        · exact frozenOK_iff.2 (Or.inl ⟨h1, h2⟩)
+        · exact frozenOK_iff.2 (Or.inr ⟨fz, jf, h1, h2, f1, f2, f3, f4, f5, fun _ => f6 hfp⟩)
+    · intro hc; rw [hph] at hc; cases hc
+    · intro hc; rw [hph] at hc; cases hc
+    · show JobOK cfg _ d _
+      refine ⟨⟨Nat.le_refl _, Or.inr (Or.inr rfl)⟩, ?_, ?_, ⟨?_, ?_⟩, ?_, ?_, ?_, trivial, ?_, (fun hc => by cases hc), ?_,
+        (fun hc => by cases hc)⟩
+      · show JobKindOK _ _
+        simp [JobKindOK, hph]
+      · show JobManifestOK cfg _ d _
+        unfold JobManifestOK
+        exact hsett
+      · intro o ho
+        simp only [List.mem_singleton] at ho
+        subst ho
+        exact Nat.lt_succ_self _
+      · intro _
+        apply holds_of_some hcur
+        intro k hk
+        obtain ⟨mf', v0, hparts⟩ := h.disk.parts
+        have e : mf' = mf := by have := hparts.cur; rw [hcur] at this; exact (Option.some.inj this).symm
+        subst e
+        obtain ⟨v, hv, _, _⟩ := hparts.views k hk
+        apply holds_of_some hv
+        refine ⟨fun o ho => ?_, fun n hn => by cases hn⟩
+        simp only [List.mem_singleton] at ho
+        subst ho
+        exact (hb.all mf' hcur k hk v hv).2.1
+      · exact ⟨rfl, rfl, rfl⟩
+      · intro i o hi
+        show OutOK d (.tCreate 0) i o
+        unfold OutOK
+        intro hlt'; exact absurd hlt' (Nat.not_lt_zero _)
+      · show PcIdxOK _
+        unfold PcIdxOK
+        exact Nat.lt_succ_self _
+      · rw [hlv]; trivial
+      · show InputsOK _ d _ _
+        unfold InputsOK
+        rw [if_pos rfl]
+        refine ⟨rfl, rfl, rfl, fun t ht o ho => ?_, fun _ => ⟨hlive, ?_⟩⟩
+        · simp only [List.mem_singleton] at ho
+          subst ho
+          exact hlt t ht
+        · simp only [outsGrps, List.flatMap_cons, List.flatMap_nil, List.append_nil]
+          rfl
   · cases hs
 
 end GoLevel.Dur
